@@ -354,6 +354,12 @@ func PublishContext[T any](bus *EventBus, ctx context.Context, event T) {
 				if !filterFunc(event) {
 					continue // Skip this handler as event doesn't match filter
 				}
+			} else if !filterAcceptsDynamic(h.filter, event) {
+				// The event was published through an interface-typed parameter
+				// (e.g. Publish[any]): the predicate is typed with the event's
+				// dynamic type and has to be called through reflection, exactly
+				// as the handler itself is.
+				continue
 			}
 		}
 
@@ -430,6 +436,21 @@ func PublishContext[T any](bus *EventBus, ctx context.Context, event T) {
 	if bus.observability != nil {
 		bus.observability.OnPublishComplete(ctx, eventTypeName)
 	}
+}
+
+// filterAcceptsDynamic applies a WithFilter predicate whose parameter type is
+// the event's dynamic type rather than the static type of the publish call. A
+// predicate that cannot take the event does not filter it.
+func filterAcceptsDynamic(filter any, event any) bool {
+	fv := reflect.ValueOf(filter)
+	if fv.Kind() != reflect.Func || fv.Type().NumIn() != 1 || fv.Type().NumOut() != 1 || fv.Type().Out(0).Kind() != reflect.Bool {
+		return true
+	}
+	ev := reflect.ValueOf(event)
+	if !ev.IsValid() || !ev.Type().AssignableTo(fv.Type().In(0)) {
+		return true
+	}
+	return fv.Call([]reflect.Value{ev})[0].Bool()
 }
 
 // Clear removes all handlers for events of type T
